@@ -171,17 +171,17 @@ Qed.
 Theorem split_exhausted : forall c b, recv c b tt [] = Err EEOF tt [].
 Proof. intros c b. unfold recv. rewrite recv_k_eof; auto using bufio_size_pos. Qed.
 
-Lemma split_progress c b : progress_ok (recv c b).
+Lemma split_progress c b : progress_ok (recv c b) (fun _ => True).
 Proof.
-  intros [] s. destruct (recv_cases c b s) as [[r [rest [-> [_ ->]]]]|[_ ->]].
-  - rewrite app_length. cbn. lia.
+  intros [] s _. destruct (recv_cases c b s) as [[r [rest [-> [_ ->]]]]|[_ ->]].
+  - split; auto. rewrite app_length. cbn. lia.
   - unfold eof_outcome. destruct s as [|x s].
-    + right. split; auto. exists tt. rewrite split_exhausted. auto.
-    + left. cbn. lia.
+    + split; auto. right. split; auto. exists tt. rewrite split_exhausted. auto.
+    + split; auto. left. cbn. lia.
 Qed.
 
 Theorem split_recv_all_clean : forall c b s, clean (recv_all c b s).
-Proof. intros c b s. apply recv_all_clean. apply split_progress. Qed.
+Proof. intros c b s. apply (recv_all_clean _ (fun _ => True)); auto. apply split_progress. Qed.
 
 (* truncation: valid records followed by a record cut before its delimiter *)
 Theorem split_truncation : forall b rs p,
